@@ -8,11 +8,18 @@ the recommendation part of `detect_bad_channels` and of the mode in `detect_bad_
 Quantifier: every channel count `nc`, every label vector `labels : ℕ → ℕ` (in particular all vectors over
 {0,1,2,3}, clusters of adjacent bad channels, bad channels at the probe ends), every geometry — which enters
 only through the raw weight matrix `W i j = exp(-(dist(i,j)/20)^1.3)`, here an ARBITRARY real matrix —,
-every cut-off `thr > 0` (0.005 in the code) and all data.  The detection of injected faults on synthetic
-recordings is numeric only (oracle in `harness/props/c15.py`), not a theorem.
+every cut-off `thr > 0` (0.005 in the code) and all data.  Section "Weights" instantiates `W` with the code's
+`exp(-(dist/krig)^p)` over ℝ (every `p > 0`, `krig > 0`, every geometry) and, for the default parameters, with the NP1 / NP2
+lattices; section "Batches" places the batches of `detect_bad_channels_cbin` for every file length, rate, duration and batch
+count.  The detection of injected faults on synthetic recordings is numeric only (oracle in `harness/props/c15.py`), not a
+theorem.
 -/
 import IblVerif.Analysis.Interp
+import IblVerif.Analysis.InterpWeightsC15
+import IblVerif.Analysis.BatchPlacementC15
 import IblVerif.Lemmas.BadChannelsLabels
+import IblVerif.Lemmas.BadChannelsLatticeC15
+import IblVerif.Lemmas.BadChannelsDetrendC15
 
 namespace IblVerif.C15
 open IblVerif.BadChannels
@@ -263,6 +270,243 @@ theorem labels_are_mode (batches : List (Nat → Nat)) (hne : batches ≠ []) (c
   unfold fileLabels
   exact modeOf_spec _ (by simpa using hne)
 
+/-- No label 3 at all unless the guard of the rule holds, and the guard (`ioutside.size > 0 and ioutside[-1] == nc - 1`,
+tied to the source text by `Tie.C15.detect_events_eq`) holds exactly when the LAST channel is itself below the threshold. -/
+theorem outside_rule_guard (nc : Nat) (dead noisy low : Nat → Bool) :
+    (topGuard nc ((List.range nc).filter low) = true ↔ 0 < nc ∧ low (nc - 1) = true) ∧
+    (topGuard nc ((List.range nc).filter low) = false → ∀ j, detectLabels nc dead noisy low j ≠ 3) := by
+  refine ⟨topGuard_iff nc low, fun h j => ?_⟩
+  have hnil := outsideBlock_of_guard_false nc low h
+  simp only [detectLabels, assign, hnil, List.contains_iff_mem, List.mem_filter, List.mem_range, List.not_mem_nil,
+    if_false]
+  split
+  · simp
+  · split <;> simp
+
+/-- A label held by more than half of the batches is the file's label; in particular a label on which all batches agree. -/
+theorem labels_majority (batches : List (Nat → Nat)) (c v : Nat)
+    (hmaj : batches.length < 2 * (batches.map (· c)).count v) : fileLabels batches c = some v := by
+  have hne : batches ≠ [] := by
+    intro e; subst e; simp at hmaj
+  obtain ⟨m, hm, _, hmax, _⟩ := labels_are_mode batches hne c
+  rw [hm]
+  by_cases e : m = v
+  · rw [e]
+  · exfalso
+    have h1 := count_add_count_le (batches.map (· c)) v m (fun e' => e e'.symm)
+    have h2 := hmax v
+    simp only [List.length_map] at h1
+    omega
+
+theorem labels_unanimous (batches : List (Nat → Nat)) (hne : batches ≠ []) (c v : Nat)
+    (hall : ∀ b ∈ batches, b c = v) : fileLabels batches c = some v := by
+  apply labels_majority
+  have : (batches.map (· c)).count v = batches.length := by
+    rw [List.count_eq_length.mpr]
+    · simp
+    · intro x hx
+      obtain ⟨b, hb, rfl⟩ := List.mem_map.mp hx
+      exact (hall b hb).symm
+  have := List.length_pos_iff.mpr hne
+  omega
+
+/-- One flag per analysed (non-sync) channel (`nc = sr.nc - sr.nsync`, tied to the source by `Tie.C15.cbin_nc_eq`). -/
+theorem file_label_vector_length (ncTotal nsync : Nat) (batches : List (Nat → Nat)) (l : List Nat)
+    (h : fileLabelVector ncTotal nsync batches = some l) : l.length = ncTotal - nsync := by
+  unfold fileLabelVector analysedChannels at h
+  rw [mapM_option_length _ _ _ h, List.length_range]
+
+/-! ## `detrend` (the median-filter residual behind `xcor_hf` / `xcor_lf`) -/
+
+/-- `detrend(x, nmed)` keeps the length; the median window of output `k` never touches the zero padding of
+`scipy.signal.medfilt` (`ntap = ⌈nmed/2⌉ ≥ nmed/2`, tied to the source by `Tie.C15.detrend_ntap_eq / _covers`) and reads
+`x[clamp(k + q − nmed/2)]`, `q < nmed`: a window centred on `k`, the vector being continued by its first / last value.
+Every scalar type, every length, every window size. -/
+theorem detrend_centred_edge_replicated {α : Type} [Inhabited α] [Zero α] [Sub α] [LT α] [DecidableLT α]
+    (x : List α) (hx : x ≠ []) (nmed k q : Nat) (hk : k < x.length) (hq : q < nmed) (d : α) :
+    (detrend x nmed).length = x.length ∧
+    nmed / 2 ≤ k + detrendTaps nmed + q ∧
+    k + detrendTaps nmed + q - nmed / 2 < (edgePad (detrendTaps nmed) x).length ∧
+    (edgePad (detrendTaps nmed) x).getD (k + detrendTaps nmed + q - nmed / 2) d =
+      x.getD (min (x.length - 1) (k + q - nmed / 2)) d := by
+  have ht := detrendTaps_ge nmed
+  have hup : nmed - 1 - nmed / 2 ≤ detrendTaps nmed := by unfold detrendTaps; omega
+  have hlen := edgePad_length (detrendTaps nmed) x
+  refine ⟨by simp [detrend], by omega, by omega, ?_⟩
+  rw [edgePad_getD (detrendTaps nmed) x hx _ (by omega) d]
+  congr 2
+  omega
+
+/-! ## Weights: `exp(-(distance / krig)^p)` -/
+
+/-- The raw weight is a function of the distance between the two sites only, and symmetric. -/
+theorem weights_depend_on_distance_only (p krig : ℝ) (x y : Nat → ℝ) (i j k : Nat) :
+    (dist2 x y i j = dist2 x y i k → rawWeightR p krig x y i j = rawWeightR p krig x y i k) ∧
+    rawWeightR p krig x y i j = rawWeightR p krig x y j i := by
+  refine ⟨fun h => ?_, ?_⟩
+  · rw [rawWeightR_eq_decay, rawWeightR_eq_decay, h]
+  · rw [rawWeightR_eq_decay, rawWeightR_eq_decay, dist2_symm]
+
+/-- Raw weights lie in (0, 1], a site has weight 1 with itself, and a farther site never weighs more. -/
+theorem weights_decay_with_distance (p krig : ℝ) (hp : 0 < p) (hk : 0 < krig) (x y : Nat → ℝ) (i j k : Nat) :
+    0 < rawWeightR p krig x y i j ∧ rawWeightR p krig x y i j ≤ 1 ∧ rawWeightR p krig x y i i = 1 ∧
+    (dist2 x y i j ≤ dist2 x y i k → rawWeightR p krig x y i k ≤ rawWeightR p krig x y i j) := by
+  simp only [rawWeightR_eq_decay, dist2_self]
+  exact ⟨decay_pos _ _ _, decay_le_one _ _ _ hk, decay_zero _ _ (ne_of_gt hp),
+    fun h => decay_antitone _ _ _ _ hp.le hk h⟩
+
+/-- The repaired row with its coefficients spelled out: `coeff` is the cut weight over the sum of the cut weights. -/
+theorem repair_eq_coeff_sum (nc : Nat) (thr : ℝ) (hthr : 0 < thr) (labels : Nat → Nat) (W : Nat → Nat → ℝ)
+    (data : Nat → Nat → ℝ) (c : Nat) (hc : c < nc) (hbad : labels c = 1 ∨ labels c = 2)
+    (hdonor : ∃ j, j < nc ∧ labels j ≠ 1 ∧ labels j ≠ 2 ∧ thr ≤ W c j) (t : Nat) :
+    interpolate nc thr labels W data c t =
+      ((List.range nc).map fun j => coeff nc thr labels (W c) j * data j t).sum := by
+  obtain ⟨j0, hj0, hl1, hl2, hw⟩ := hdonor
+  have hb0 : isBad labels j0 = false := by simp [isBad, hl1, hl2]
+  rw [sequential_eq_parallel nc thr labels W data c hc hbad]
+  exact repairRow_eq_sum nc thr hthr labels (W c) data j0 hj0 hb0 hw t
+
+/-- Donors at the same distance from the bad channel (mirror images, the two neighbours of a row …) enter the repair with
+EQUAL coefficients, and of two channels the nearer one never has the smaller coefficient (every geometry, `p > 0`). -/
+theorem symmetric_donors_equal_weight (nc : Nat) (thr p krig : ℝ) (hthr : 0 < thr) (hp : 0 < p) (hk : 0 < krig)
+    (labels : Nat → Nat) (x y : Nat → ℝ) (c j k : Nat) (hj : j < nc) (hkn : k < nc)
+    (hbj : labels j ≠ 1 ∧ labels j ≠ 2) :
+    (labels k ≠ 1 ∧ labels k ≠ 2 → dist2 x y c j = dist2 x y c k →
+      coeff nc thr labels (rawWeightR p krig x y c) j = coeff nc thr labels (rawWeightR p krig x y c) k) ∧
+    (dist2 x y c j ≤ dist2 x y c k →
+      coeff nc thr labels (rawWeightR p krig x y c) k ≤ coeff nc thr labels (rawWeightR p krig x y c) j) := by
+  have hb : isBad labels j = false := by simp [isBad, hbj.1, hbj.2]
+  refine ⟨fun hbk hd => ?_, fun hd => ?_⟩
+  · have hb' : isBad labels k = false := by simp [isBad, hbk.1, hbk.2]
+    apply coeff_eq_of_weight_eq nc thr labels _ j k hj hkn hb hb'
+    rw [rawWeightR_eq_decay, rawWeightR_eq_decay, hd]
+  · apply coeff_mono nc thr hthr labels _ j k hj hkn hb
+    rw [rawWeightR_eq_decay, rawWeightR_eq_decay]
+    exact decay_antitone _ _ _ _ hp.le hk hd
+
+/-- "Nearby": the channels that contribute to the repair of bad channel `c` are exactly the channels labelled neither 1
+nor 2 within the radius `krig · log(1/thr)^(1/p)` of it (72.12 µm for the defaults). -/
+theorem repair_uses_exactly_nearby (nc : Nat) (thr p krig : ℝ) (hthr : 0 < thr) (hthr1 : thr ≤ 1) (hp : 0 < p)
+    (hk : 0 < krig) (labels : Nat → Nat) (x y : Nat → ℝ) (c j : Nat) :
+    coeff nc thr labels (rawWeightR p krig x y c) j ≠ 0 ↔
+      j < nc ∧ labels j ≠ 1 ∧ labels j ≠ 2 ∧
+        Real.sqrt (dist2 x y c j) ≤ krig * (Real.log (1 / thr)) ^ p⁻¹ := by
+  rw [coeff_ne_zero_iff nc thr hthr, rawWeightR_eq_decay, decay_ge_iff p krig thr _ hp hk hthr hthr1]
+  simp only [isBad, Bool.or_eq_false_iff, beq_eq_false_iff_ne, ne_eq, and_assoc]
+
+/-- Coordinates of a lattice as real vectors. -/
+noncomputable def siteX (site : Nat → Int × Int) (j : Nat) : ℝ := ((site j).1 : ℝ)
+noncomputable def siteY (site : Nat → Int × Int) (j : Nat) : ℝ := ((site j).2 : ℝ)
+
+theorem dist2_site (site : Nat → Int × Int) (i j : Nat) :
+    dist2 (siteX site) (siteY site) i j = ((sqDist (site i) (site j) : Int) : ℝ) := by
+  simp only [dist2, siteX, siteY, sqDist]
+  push_cast
+  ring
+
+/-- On a lattice whose squared site distances avoid the gap (4624, 5625) µm², the default parameters
+(p = 1.3, 20 µm, cut-off 0.005) make `j` a donor of `c` iff it is labelled neither 1 nor 2 and within 68 µm. -/
+theorem default_donors_on_lattice (site : Nat → Int × Int)
+    (hgap : ∀ i j, sqDist (site i) (site j) ≤ 4624 ∨ 5625 ≤ sqDist (site i) (site j))
+    (nc : Nat) (labels : Nat → Nat) (c j : Nat) :
+    coeff nc (1 / 200) labels (rawWeightR (13 / 10) 20 (siteX site) (siteY site) c) j ≠ 0 ↔
+      j ∈ latticeDonors site nc labels c := by
+  rw [coeff_ne_zero_iff nc (1 / 200) (by norm_num), rawWeightR_eq_decay, dist2_site]
+  simp only [latticeDonors, List.mem_filter, List.mem_range, Bool.and_eq_true, Bool.not_eq_true',
+    defaultDonorSq]
+  constructor
+  · rintro ⟨h1, h2, h3⟩
+    refine ⟨h1, h2, ?_⟩
+    rcases hgap c j with h | h
+    · exact decide_eq_true h
+    · exfalso
+      have : ((5625 : Int) : ℝ) ≤ ((sqDist (site c) (site j) : Int) : ℝ) := by exact_mod_cast h
+      have := default_decay_lt _ (by simpa using this)
+      linarith
+  · rintro ⟨h1, h2, h3⟩
+    refine ⟨h1, h2, ?_⟩
+    have : ((sqDist (site c) (site j) : Int) : ℝ) ≤ ((4624 : Int) : ℝ) := by exact_mod_cast of_decide_eq_true h3
+    exact default_decay_ge _ (by simpa using this)
+
+/-- Neuropixels 2.0 (two columns, 15 µm rows): with the default parameters the donors of a bad channel are the channels
+labelled neither 1 nor 2 at most FOUR rows away, in either column. -/
+theorem np2_default_donors (nc : Nat) (labels : Nat → Nat) (c j : Nat) :
+    coeff nc (1 / 200) labels (rawWeightR (13 / 10) 20 (siteX np2Site) (siteY np2Site) c) j ≠ 0 ↔
+      j < nc ∧ labels j ≠ 1 ∧ labels j ≠ 2 ∧ -4 ≤ siteRow j - siteRow c ∧ siteRow j - siteRow c ≤ 4 := by
+  rw [default_donors_on_lattice np2Site (fun i j => (np2_sqDist i j).2)]
+  simp only [latticeDonors, List.mem_filter, List.mem_range, Bool.and_eq_true, Bool.not_eq_true',
+    decide_eq_true_eq, (np2_sqDist c j).1, isBad, Bool.or_eq_false_iff, beq_eq_false_iff_ne, ne_eq, and_assoc]
+
+/-- Neuropixels 1.0 (four staggered columns, 20 µm rows): the donors are the channels labelled neither 1 nor 2 at most TWO
+rows away, or three rows away and at most 32 µm sideways. -/
+theorem np1_default_donors (nc : Nat) (labels : Nat → Nat) (c j : Nat) :
+    coeff nc (1 / 200) labels (rawWeightR (13 / 10) 20 (siteX np1Site) (siteY np1Site) c) j ≠ 0 ↔
+      j < nc ∧ labels j ≠ 1 ∧ labels j ≠ 2 ∧
+        ((-2 ≤ siteRow j - siteRow c ∧ siteRow j - siteRow c ≤ 2) ∨
+          ((siteRow j - siteRow c = 3 ∨ siteRow j - siteRow c = -3) ∧
+            ((np1Site j).1 - (np1Site c).1) ^ 2 ≤ 1024)) := by
+  rw [default_donors_on_lattice np1Site (fun i j => (np1_sqDist i j).2)]
+  simp only [latticeDonors, List.mem_filter, List.mem_range, Bool.and_eq_true, Bool.not_eq_true',
+    decide_eq_true_eq, (np1_sqDist c j).1, isBad, Bool.or_eq_false_iff, beq_eq_false_iff_ne, ne_eq, and_assoc]
+
+/-! ## Batches of `detect_bad_channels_cbin` (exact arithmetic; the float evaluation is compared with the code) -/
+
+/-- No batch reaches beyond the file: for a file of `ns` samples at least one batch long, every batch slice satisfies
+`0 ≤ start ≤ stop ≤ ns` — every length, rate, duration, batch count. -/
+theorem batches_inside_file (ns nb i : Nat) (fs dur : ℝ) (hfs : 0 < fs) (hdur : 0 ≤ dur) (hlen : dur * fs ≤ ns)
+    (hi : i < nb) :
+    0 ≤ (batchSliceR ns fs dur nb i).1 ∧ (batchSliceR ns fs dur nb i).1 ≤ (batchSliceR ns fs dur nb i).2 ∧
+      (batchSliceR ns fs dur nb i).2 ≤ ns := by
+  rw [batchSliceR_eq ns fs dur nb i hfs hdur hlen]
+  have h0 := batchPos_nonneg ns fs dur nb i hlen
+  have h1 := batchPos_add_le ns fs dur nb i hlen hi
+  have hD : 0 ≤ dur * fs := mul_nonneg hdur hfs.le
+  refine ⟨Int.floor_nonneg.mpr h0, Int.floor_mono (by linarith), ?_⟩
+  have : (⌊batchPos ns fs dur nb i + dur * fs⌋ : ℝ) ≤ (ns : ℝ) := le_trans (Int.floor_le _) h1
+  exact_mod_cast this
+
+/-- The first batch starts at the first sample; with at least two batches the last one ends exactly at the last sample. -/
+theorem batches_span_file (ns nb : Nat) (fs dur : ℝ) (hfs : 0 < fs) (hdur : 0 ≤ dur) (hlen : dur * fs ≤ ns) :
+    (batchSliceR ns fs dur nb 0).1 = 0 ∧ (2 ≤ nb → (batchSliceR ns fs dur nb (nb - 1)).2 = ns) := by
+  refine ⟨?_, fun hnb => ?_⟩
+  · rw [batchSliceR_eq ns fs dur nb 0 hfs hdur hlen]
+    have : batchPos ns fs dur nb 0 = 0 := by unfold batchPos; split <;> simp
+    simp [this]
+  · rw [batchSliceR_eq ns fs dur nb (nb - 1) hfs hdur hlen]
+    have h2 : (2 : ℝ) ≤ (nb : ℝ) := by exact_mod_cast hnb
+    have hc : ((nb - 1 : Nat) : ℝ) = (nb : ℝ) - 1 := by rw [Nat.cast_sub (by omega)]; simp
+    have : batchPos ns fs dur nb (nb - 1) + dur * fs = (ns : ℝ) := by
+      unfold batchPos
+      rw [if_neg (by omega), hc]
+      have hne : (nb : ℝ) - 1 ≠ 0 := by intro h; linarith
+      field_simp
+      ring
+    show ⌊batchPos ns fs dur nb (nb - 1) + dur * fs⌋ = (ns : ℤ)
+    rw [this]
+    exact Int.floor_natCast ns
+
+/-- The batches are evenly spaced (consecutive starts differ by the constant `(ns − dur·fs)/(nb − 1)` up to the one sample
+of truncation) and each is `dur·fs` samples long up to one sample. -/
+theorem batches_evenly_spaced (ns nb i : Nat) (fs dur : ℝ) (hfs : 0 < fs) (hdur : 0 ≤ dur) (hlen : dur * fs ≤ ns)
+    (hi : i + 1 < nb) :
+    |(((batchSliceR ns fs dur nb (i + 1)).1 - (batchSliceR ns fs dur nb i).1 : ℤ) : ℝ) -
+        ((ns : ℝ) - dur * fs) / ((nb : ℝ) - 1)| < 1 ∧
+    |(((batchSliceR ns fs dur nb i).2 - (batchSliceR ns fs dur nb i).1 : ℤ) : ℝ) - dur * fs| < 1 := by
+  rw [batchSliceR_eq ns fs dur nb i hfs hdur hlen, batchSliceR_eq ns fs dur nb (i + 1) hfs hdur hlen]
+  have hstep : batchPos ns fs dur nb (i + 1) - batchPos ns fs dur nb i = ((ns : ℝ) - dur * fs) / ((nb : ℝ) - 1) := by
+    unfold batchPos
+    rw [if_neg (by omega), if_neg (by omega)]
+    push_cast
+    ring
+  have a1 := Int.floor_le (batchPos ns fs dur nb i)
+  have a2 := Int.lt_floor_add_one (batchPos ns fs dur nb i)
+  have b1 := Int.floor_le (batchPos ns fs dur nb (i + 1))
+  have b2 := Int.lt_floor_add_one (batchPos ns fs dur nb (i + 1))
+  have c1 := Int.floor_le (batchPos ns fs dur nb i + dur * fs)
+  have c2 := Int.lt_floor_add_one (batchPos ns fs dur nb i + dur * fs)
+  push_cast
+  constructor <;> rw [abs_lt] <;> constructor <;> linarith
+
 /-! ## Non-vacuity -/
 
 /-- Hypotheses of `repair_is_convex` on a concrete probe: channel 1 dead between two good channels. -/
@@ -296,5 +540,29 @@ example : (List.range 6).map (detectLabels 6 (fun _ => false) (fun _ => false) (
 
 example : modeOf [3, 0, 3, 0, 1] = some 0 ∧ modeOf [3, 3, 0, 1, 3] = some 3 ∧ modeOf [] = none := by
   decide
+
+/-- Hypotheses of `batches_inside_file` / `batches_evenly_spaced`: 10 batches of 0.3 s at 30 kHz in a 60 s file. -/
+example : (0 : ℝ) < 30000 ∧ (0 : ℝ) ≤ 3 / 10 ∧ (3 / 10 : ℝ) * 30000 ≤ ((1800000 : Nat) : ℝ) ∧ 3 + 1 < 10 := by
+  norm_num
+
+/-- … of `labels_majority`: 3 of 5 batches say 2. -/
+example : ([fun _ => 2, fun _ => 0, fun _ => 2, fun _ => 1, fun _ => 2] : List (Nat → Nat)).length <
+    2 * (([fun _ => 2, fun _ => 0, fun _ => 2, fun _ => 1, fun _ => 2] : List (Nat → Nat)).map (· 7)).count 2 := by
+  decide
+
+/-- … of `default_donors_on_lattice` (its hypothesis is `np2_sqDist` / `np1_sqDist`), and the donor rule evaluated: on an
+NP2 shank the donors of dead channel 10 (row 5) among 24 good channels are rows 1..9 without itself; on NP1 rows 2..8 minus
+the two far corners (channels 5 and 17: three rows away and 48 µm sideways). -/
+example : latticeDonors np2Site 24 (fun j => if j = 10 then 1 else 0) 10 =
+    [2, 3, 4, 5, 6, 7, 8, 9, 11, 12, 13, 14, 15, 16, 17, 18, 19] := by decide
+example : latticeDonors np1Site 24 (fun j => if j = 10 then 1 else 0) 10 =
+    [4, 6, 7, 8, 9, 11, 12, 13, 14, 15, 16] := by decide
+
+/-- `detrend` executed: a step profile, window 3 (the residual is non-zero only next to the step). -/
+example : detrend ([1, 1, 1, 5, 5, 5] : List Int) 3 = [0, 0, 0, 0, 0, 0] ∧
+    detrend ([1, 1, 9, 1, 1] : List Int) 3 = [0, 0, 8, 0, 0] ∧ detrendTaps 11 = 6 := by decide
+
+example : topGuard 6 ((List.range 6).filter fun j => j == 1 || j ≥ 4) = true ∧
+    topGuard 6 ((List.range 6).filter fun j => j == 1 || j == 4) = false := by decide
 
 end IblVerif.C15
